@@ -803,6 +803,36 @@ func main() {
 			fmt.Fprintf(&out, "(* internal/header.go: var %s *)\nDefinition src_%s : bytes * bytes := (%s, %s).\n\n", n, n, coqString(*v.s), coqString(*l.s))
 		}
 	})
+	group("SrcEffects.v", func() {
+		mk := func(vars map[string]term, facts map[string]bool) func() *eenv {
+			return func() *eenv {
+				e := &eenv{vars: map[string]term{}, facts: map[string]bool{}}
+				for k, v := range vars {
+					e.vars[k] = v
+				}
+				for k, v := range facts {
+					e.facts[k] = v
+				}
+				return e
+			}
+		}
+		reqV := map[string]term{"req": {"q", kReq}, "urlKey": {"url_key", kS}, "refs": {"refs", kRefs}, "refIndex": {"ref_index", kZ}}
+		translateEffects(effSpec{file: "roundtripper.go", fn: "RoundTrip", coq: "src_round_trip", params: "(q : request)", ret: "prog outcome",
+			env: mk(map[string]term{"req": {"q", kReq}}, nil)}, rootByName, rootCE, &out)
+		translateEffects(effSpec{file: "roundtripper.go", fn: "handleUnrecognizedMethod", coq: "src_handle_unrecognized_method", params: "(q : request) (url_key : bytes)", ret: "prog outcome",
+			env: mk(reqV, nil)}, rootByName, rootCE, &out)
+		translateEffects(effSpec{file: "roundtripper.go", fn: "handleCacheMiss", coq: "src_handle_cache_miss", params: "(q : request) (url_key : bytes) (refs : list (option ref)) (ref_index : Z)", ret: "prog outcome",
+			env: mk(reqV, nil)}, rootByName, rootCE, &out)
+		hitV := map[string]term{"req": {"q", kReq}, "urlKey": {"url_key", kS}, "refs": {"refs", kRefs}, "refIndex": {"ref_index", kZ}, "stored": {"stored", kEntry}}
+		translateEffects(effSpec{file: "roundtripper.go", fn: "handleCacheHit", coq: "src_handle_cache_hit", params: "(q : request) (stored : stored_entry) (url_key : bytes) (refs : list (option ref)) (ref_index : Z)", ret: "prog outcome",
+			env: mk(hitV, nil)}, rootByName, rootCE, &out)
+		bgV := map[string]term{"req": {"q", kReq}, "urlKey": {"url_key", kS}, "stored": {"stored", kEntry}, "freshness": {"f", kFresh}, "ccReq": {"cc_req", kCCq}}
+		translateEffects(effSpec{file: "roundtripper.go", fn: "backgroundRevalidate", coq: "src_background_revalidate", params: "(q : request) (stored : stored_entry) (url_key : bytes) (f : freshness) (cc_req : directives)", ret: "prog unit",
+			unit: true, inner: true, env: mk(bgV, nil)}, rootByName, rootCE, &out)
+		// the handler is always built with a storer (newTransport); a unit test of the repository builds one without
+		translateEffects(effSpec{file: "validationresponsehandler.go", fn: "HandleValidationResponse", coq: "src_handle_validation_response", params: "(ctx : reval_ctx) (q : request) (rep : origin_reply)", ret: "prog outcome",
+			pair: true, env: mk(map[string]term{"req": {"q", kReq}, "ctx": {"ctx", kCtx}}, map[string]bool{"r.rs != nil": true})}, intByName, intCE, &out)
+	})
 	if failed > 0 {
 		os.Exit(3)
 	}
